@@ -751,7 +751,10 @@ class C15(Prop):
           'iterator / generator, in 1-3 consecutive recover() calls (cut at random percentages); Evolution updates '
           'also include two operations that are NOT equivalent to one batch application (duel, step); real '
           'algorithms include NEAT, and their global state (elites, elite_cursor, living_species) is observed; '
-          'EVERY crash point k in 0..N is checked inside a case. Non-trivial: some '
+          'seeds of every seeded algorithm and operator are drawn from {0, non-zero, None}, and the falsy members '
+          'of the numeric parameter domains (initial size 0, 0 children, keep 0, batch size 0, reward 0, empty '
+          'first/last recover() call, empty run) are generated next to the ordinary values; Deduping also wraps '
+          'NSGA2; EVERY crash point k in 0..N is checked inside a case. Non-trivial: some '
           'crash point has a proposal in flight and some has a reward; distinct by (algo, space, events).')
   trusted_base = [
       'random.Random bit streams (the oracle stream fed to the model is recorded from the real PRNG)',
